@@ -86,21 +86,24 @@ def three_regime_series(T, N, seed):
 
 # ====================================================================== real runs
 class RunRecord:
-    __slots__ = ("driver", "init", "limit", "script", "entry", "result", "error", "events",
+    __slots__ = ("scripted_relabel", "driver", "init", "limit", "script", "entry", "result", "error", "events",
                  "label_calls", "admm_calls", "sampler_log", "unscripted", "rounds", "final",
                  "pools", "rng_clean")
 
 
 def real_run(driver, init, limit, script=(), entry="fit", orders=None, task_fault=None,
-             phase_fault=None, pool="virtual"):
+             phase_fault=None, pool="virtual", relabel_script=None):
     """One complete run of the real code under scripted seams."""
     import fast_ticc
     from fast_ticc import main_loop
     TRACER.install()
     TRACER.begin(init_labels=init, donor_script=script, pool_factory=pool, orders=orders,
                  task_fault=task_fault, phase_fault=phase_fault)
+    if relabel_script is not None:
+        TRACER.relabel_script = [list(l) for l in relabel_script]
     rec = RunRecord()
     rec.driver, rec.init, rec.limit, rec.script, rec.entry = driver, init, limit, tuple(script), entry
+    rec.scripted_relabel = relabel_script is not None
     rec.result = rec.error = None
     before = seams.rng_states()
     try:
@@ -375,7 +378,7 @@ def mon_c09(rec):
     # the returned labelling is a minimum-cost labelling for the returned model
     means = [c.stacked_data_mean for c in st.clusters]
     tab, scale = ref_table(d.X, means, list(mr))
-    if np.all(np.isfinite(tab)):
+    if np.all(np.isfinite(tab)) and not getattr(rec, "scripted_relabel", False):
         bvec = refs.beta_vector(d.beta, d.Tp)
         if d.joint and np.ndim(d.beta) == 0:
             pass        # joint objective is judged by C07
